@@ -71,10 +71,34 @@ class MergeModel(object):
         self.acc = None
         self.problems = []
         self.res_var = None
+        self.diff = {}      # var -> (owner of minuend, owner of subtrahend, 'signed'|'unsigned'|'lossy', decl node)
+
+    def _idx_owner(self, e):
+        """owner if e denotes the current coordinate of an operand (an idx local or *cursor)"""
+        v = ex.var_of(e)
+        d = self.cur.get(v)
+        if d and d[0] == 'idx':
+            return d[1]
+        return deref_of(e, self.cursors)
 
     def classify_locals(self, body):
         for n in body.walk():
             if n.k == 'VarDecl' and n.c:
+                d0 = n.c[0].strip_all()
+                if d0.k == 'BinaryOperator' and d0.op == '-':
+                    oa, ob = self._idx_owner(d0.c[0]), self._idx_owner(d0.c[1])
+                    if oa and ob and oa != ob:
+                        dw, ds = int_shape(self.prog, n.j.get('t'))
+                        ow, _os = int_shape(self.prog, d0.j.get('t'))
+                        if dw is None or ow is None:
+                            kind = None
+                        elif dw < ow:
+                            kind = 'lossy'
+                        else:
+                            kind = 'signed' if ds else 'unsigned'
+                        if kind:
+                            self.diff[n.decl_id] = (oa, ob, kind, n)
+                            continue
                 o = deref_of(n.c[0], self.cursors)
                 if o:
                     # GF2: the element is the index; FP: the element is an entry
@@ -117,12 +141,32 @@ class MergeModel(object):
             s = leaf.strip_all()
             if s.k == 'BinaryOperator' and s.op in ('<', '>', '<=', '>=', '==', '!='):
                 a, b = ex.var_of(s.c[0]), ex.var_of(s.c[1])
-                da, db = self.cur.get(a), self.cur.get(b)
+                lt, eq, gt = ex.f_atom('lt'), ex.f_atom('eq'), ex.f_atom('gt')
+                # three-way comparison through a stored difference:  d = a - b;  d OP 0
+                for (x, y, flip) in ((a, s.c[1], False), (b, s.c[0], True)):
+                    if x in self.diff and y.strip_all().cv == 0:
+                        oa, ob, kind, dn = self.diff[x]
+                        op = s.op
+                        if flip:
+                            op = {'<': '>', '>': '<', '<=': '>=', '>=': '<='}.get(op, op)
+                        if kind == 'lossy':
+                            msg = ('the coordinates are compared through their difference stored in the narrower type %s (line %d): '
+                                   'coordinates that differ by a multiple of 2^32 compare equal and differences beyond the range change sign' % (
+                                       (self.prog.base_type(dn.j.get('t')) or {}).get('s', '?'), dn.line))
+                            if msg not in self.problems:
+                                self.problems.append(msg)
+                        if oa == 'arg':
+                            op = {'<': '>', '>': '<', '<=': '>=', '>=': '<='}.get(op, op)
+                        if kind == 'unsigned':
+                            ne = ex.f_or(lt, gt)
+                            return {'<': ex.FALSE, '>': ne, '<=': eq, '>=': ex.TRUE, '==': eq, '!=': ne}[op]
+                        return {'<': lt, '>': gt, '<=': ex.f_or(lt, eq), '>=': ex.f_or(gt, eq), '==': eq, '!=': ex.f_or(lt, gt)}[op]
+                oa, ob = self._idx_owner(s.c[0]), self._idx_owner(s.c[1])
+                da, db = (('idx', oa) if oa else None), (('idx', ob) if ob else None)
                 if da and db and da[0] == 'idx' and db[0] == 'idx' and da[1] != db[1]:
                     op = s.op
                     if da[1] == 'arg':
                         op = {'<': '>', '>': '<', '<=': '>=', '>=': '<=', '==': '==', '!=': '!='}[op]
-                    lt, eq, gt = ex.f_atom('lt'), ex.f_atom('eq'), ex.f_atom('gt')
                     return {'<': lt, '>': gt, '<=': ex.f_or(lt, eq), '>=': ex.f_or(gt, eq), '==': eq, '!=': ex.f_or(lt, gt)}[op]
             return None
         f = ex.formula(c, atomize)
@@ -183,6 +227,18 @@ class MergeModel(object):
             acts.append(('assign', ex.var_of(e.c[1]), e))
             return
         acts.append(('other', e))
+
+
+INT_SHAPES = {'char': (8, True), 'signed char': (8, True), 'unsigned char': (8, False), 'short': (16, True), 'unsigned short': (16, False),
+              'int': (32, True), 'unsigned int': (32, False), 'long': (64, True), 'unsigned long': (64, False),
+              'long long': (64, True), 'unsigned long long': (64, False)}
+
+
+def int_shape(prog, t):
+    """(width, signed) of an integer type on the analysed target (LP64), (None, None) otherwise"""
+    bt = prog.base_type(t) or {}
+    c = (bt.get('canon') or '').replace('const ', '').strip()
+    return INT_SHAPES.get(c, (None, None))
 
 
 def is_toggle(prog, e, acc):
@@ -361,7 +417,9 @@ def check_plus(rep, prog, fn, rule='R17a'):
     want = {'lt': sorted([repr(('push', ('idx', 'this'))), repr(('adv', 'this'))]),
             'gt': sorted([repr(('push', ('idx', 'arg'))), repr(('adv', 'arg'))]),
             'eq': sorted([repr(('adv', 'this')), repr(('adv', 'arg'))])}
-    if table == want:
+    if m.problems:
+        rep.violation(rule, main, fn, what, '; '.join(m.problems), key='%s|%s|lossy-compare' % (rule, fn.g))
+    elif table == want:
         rep.ok(rule, main, fn, what, 'action table: a<b push(a) adv_i; a>b push(b) adv_j; a==b adv_i adv_j')
     else:
         diffs = ['%s: got %s' % (o, table[o]) for o in ('lt', 'eq', 'gt') if table[o] != want[o]]
@@ -426,13 +484,27 @@ def check_dot(rep, prog, fn, rule='R17a'):
         rep.undecided(rule, fn.body, fn, what, 'no two-cursor merge loop found')
         return
     m.classify_locals(main.body)
+    shortcut_rets = []
     for st in fn.body.c:
         if st is main:
             break
+        if st.k == 'IfStmt' and st.els is None:
+            verdict, detail = judge_lookup_shortcut(prog, fn, st, m)
+            whats = 'a look-up shortcut in front of the merge also returns the parity of the number of common coordinates'
+            if verdict == 'ok':
+                rep.ok(rule, st, fn, whats, detail)
+                shortcut_rets += [r for r in st.walk() if r.k == 'ReturnStmt']
+                continue
+            if verdict == 'violation':
+                rep.violation(rule, st, fn, whats, detail, key='%s|%s|lookup-shortcut' % (rule, fn.g))
+                shortcut_rets += [r for r in st.walk() if r.k == 'ReturnStmt']
+                continue
+            rep.undecided(rule, st, fn, what, 'statement in front of the merge loop is not in the idiom table (%s)' % detail)
+            return
         if st.k != 'DeclStmt':
             rep.undecided(rule, st, fn, what, 'statement in front of the merge loop is not in the idiom table')
             return
-    rets = ex.returns_of(fn)
+    rets = [r for r in ex.returns_of(fn) if r not in shortcut_rets]
     acc = ex.var_of(rets[0].c[0]) if len(rets) == 1 and rets[0].c else None
     if acc is None:
         rep.undecided(rule, fn.body, fn, what, 'does not return a single accumulator')
@@ -459,10 +531,82 @@ def check_dot(rep, prog, fn, rule='R17a'):
                 bad.append('on equal coordinates the accumulator is not toggled exactly once')
         elif toggles:
             bad.append('accumulator changes on unequal coordinates')
-    if bad:
+    if m.problems:
+        rep.violation(rule, main, fn, what, '; '.join(m.problems), key='%s|%s|lossy-compare' % (rule, fn.g))
+    elif bad:
         rep.violation(rule, main, fn, what, '; '.join(bad), key='%s|%s|table' % (rule, fn.g))
     else:
         rep.ok(rule, main, fn, what, 'action table: a<b adv_i; a>b adv_j; a==b toggle adv_i adv_j; returns the accumulator')
+
+
+def judge_lookup_shortcut(prog, fn, ifs, m):
+    """if (<any guard>) { for (x in own ones) <acc update by membership of x in the argument>; return <acc or its parity>; }
+    The guard is irrelevant (both branches must compute the same value)."""
+    then = ifs.then
+    stmts = then.c if then.k == 'CompoundStmt' else [then]
+    loops = [x for x in stmts if x.k in ('ForStmt', 'CXXForRangeStmt', 'WhileStmt')]
+    rets = [x for x in stmts if x.k == 'ReturnStmt']
+    rest = [x for x in stmts if x not in loops and x not in rets and x.k != 'DeclStmt']
+    if len(loops) != 1 or len(rets) != 1 or rest or stmts[-1] is not rets[0]:
+        return 'undecided', 'not a single look-up loop followed by a return'
+    loop = loops[0]
+    pid = fn.param_ids[0] if fn.param_ids else None
+    pt = prog.base_type(prog.vars[pid]['ty']) if pid is not None else None
+    if not pt or not (pt.get('rec') or '').startswith('std::set'):
+        return 'undecided', 'argument is not a std::set'
+    # the loop must range over the own coordinate list
+    own = False
+    for d in loop.walk():
+        if loop.body is not None and loop.body.is_ancestor_of(d):
+            continue
+        if d.k == 'CXXMemberCallExpr' and d.callee and d.callee['name'] in ('begin', 'cbegin') and storage_owner(prog, fn, d.object_arg()) == 'this':
+            own = True
+        if d.k == 'MemberExpr' and storage_owner(prog, fn, d) == 'this':
+            own = True
+    if not own:
+        return 'undecided', 'the loop does not range over the own coordinate list'
+    body = loop.body
+    bst = [x for x in (body.c if body.k == 'CompoundStmt' else [body]) if x.k != 'DeclStmt']
+    if len(bst) != 1:
+        return 'undecided', 'loop body is not a single statement'
+
+    def membership_call(e):
+        e = e.strip_all()
+        if e.k == 'CXXMemberCallExpr' and e.callee and e.callee['name'] == 'count' and ex.var_of(e.object_arg()) == pid:
+            return True
+        return False
+
+    def membership_test(e):
+        mb = ex.membership(e)
+        return bool(mb) and mb[2] and ex.var_of(mb[0]) == pid
+    st = bst[0]
+    e = st.strip_all() if st.k != 'IfStmt' else st
+    r = rets[0].c[0].strip_all() if rets[0].c else None
+    if r is None:
+        return 'undecided', 'shortcut returns nothing'
+    if e.k == 'CompoundAssignOperator' and e.op in ('+=', '^=') and membership_call(e.c[1]):
+        acc = ex.var_of(e.c[0])
+        init = [rhs for (d, rhs) in ex.assignments_to(fn, acc) if d.k == 'VarDecl']
+        if not init or init[0] is None or init[0].strip_all().cv != 0:
+            return 'undecided', 'accumulator does not start at 0'
+        if e.op == '^=':
+            return ('ok', 'acc ^= count(x) over the own coordinates; returns acc') if ex.var_of(r) == acc else ('undecided', 'returns something else')
+        # counting form: the return must reduce modulo 2
+        if r.k == 'BinaryOperator' and ((r.op == '%' and r.c[1].strip_all().cv == 2) or (r.op == '&' and r.c[1].strip_all().cv == 1)) and \
+                ex.var_of(r.c[0]) == acc:
+            return 'ok', 'counts the common coordinates and returns the count modulo 2'
+        if ex.var_of(r) == acc:
+            return 'violation', ('the shortcut adds %s for every own coordinate and returns the sum itself: the number of common coordinates, '
+                                 'not its parity (2 common coordinates give 2 instead of 0)' % e.c[1].text(30))
+        return 'undecided', 'returns something else'
+    if e.k == 'IfStmt' and e.els is None and membership_test(e.cond):
+        inner = e.then.c if e.then.k == 'CompoundStmt' else [e.then]
+        if len(inner) == 1:
+            t = inner[0].strip_all()
+            acc = ex.var_of(t.c[0]) if t.k in ('BinaryOperator', 'CompoundAssignOperator') and t.c else None
+            if acc is not None and is_toggle(prog, t, acc) and ex.var_of(r) == acc:
+                return 'ok', 'toggles the accumulator for every own coordinate found in the argument'
+    return 'undecided', 'loop body is not a membership accumulation'
 
 
 # ------------------------------------------------------------------------------------------------ R17c aliasing
